@@ -31,6 +31,22 @@ FROZEN = {
 }
 
 
+def _frozen_still_holds(f, site) -> bool:
+    """A reasoned exception covers the write it was reasoned about, not every write of that function: the @nonIntrospectable
+    hook may store the constant False into the schema's flag (idempotent, same value from every request) - a store of anything
+    else (a saved value restored after the await, True) is a request writing shared state that other requests read."""
+    if f.short.endswith("NonIntrospectableDirective.on_schema_execution"):
+        n = site.node
+        st = n if isinstance(n, ast.stmt) else None
+        if isinstance(st, ast.Assign):
+            return isinstance(st.value, ast.Constant) and st.value.value is False
+        if isinstance(st, (ast.AugAssign, ast.Delete)):
+            return False
+        txt = unparse(n)
+        return txt.replace(" ", "").endswith("=False")
+    return True
+
+
 def check(ck):
     repo = ck.repo
     ph = phases(repo)
@@ -56,7 +72,7 @@ def r1(ck, ph, sites):
                 continue  # counted in evidence, not listed one by one
             n_interesting += 1
             key = (f.short, s.root or "")
-            if not ok and key in FROZEN:
+            if not ok and key in FROZEN and _frozen_still_holds(f, s):
                 ck.ob(f"{f.qualname}: write to `{s.receiver_text()}` is a reasoned exception", True, f, s.node, construct=f"write:{s.receiver_text()}:{s.kind}",
                       detail=FROZEN[key])
                 continue
@@ -76,7 +92,7 @@ def r2(ck, ph, sites):
             root = s.root or ""
             if f.name == "__init__" or c in ("FRESH", "SELF-PER-REQUEST"):
                 continue  # a local that merely shares a name with a document/schema role but is bound to a fresh container
-            if (f.short, root) in FROZEN:
+            if (f.short, root) in FROZEN and _frozen_still_holds(f, s):
                 continue
             if root in AST_ROOTS or root in SCHEMA_ROOTS:
                 # the name is only a hint: a parameter of that name which is a fresh object at every call site of the phase
